@@ -155,6 +155,31 @@ func c15Custom(t *testing.T, sc *world.Scenario, out *Outcome) {
 	w.KV.StopFaults()
 	var firstNew uint64
 	okRun := w.RunTask("c15-probe", -1, 20000, func() {
+		// an unguarded delete as the new leader's very first write: whatever revision the node starts
+		// from, a key's history never goes backwards (the write is refused or lands above the stored version)
+		gone := ""
+		{
+			var live []string
+			for k := range mBefore.Keys {
+				if v, ok := mBefore.At(k, 0); ok && !v.Tomb {
+					live = append(live, k)
+				}
+			}
+			sort.Strings(live)
+			if len(live) >= 2 && sc.Seed%2 == 0 {
+				k := live[len(live)-1]
+				v, _ := mBefore.At(k, 0)
+				d := w.ProbeOp(world.Op{K: "delete", Key: k, Rev: world.Rev{M: "zero"}, Node: 1})
+				out.probe("unguarded-delete-as-first-write")
+				if d != nil && d.OK && d.Err == "" {
+					gone = k
+					if d.Hdr <= v.Rev {
+						out.violate(P, "key-history-went-backwards", "key-history-went-backwards op=delete"+eng,
+							"unguarded delete of %s on the new leader succeeded with revision %d although the key's stored version has revision %d (new leader initialised at %d)", k, d.Hdr, v.Rev, startRevB)
+					}
+				}
+			}
+		}
 		r := w.ProbeOp(world.Op{K: "create", Key: prefix + "/zz-new-leader", Val: "x", Node: 1})
 		if r != nil && r.Err == "" {
 			firstNew = r.Hdr
@@ -173,7 +198,7 @@ func c15Custom(t *testing.T, sc *world.Scenario, out *Outcome) {
 		sort.Strings(ks)
 		for _, k := range ks {
 			v, ok := mBefore.At(k, 0)
-			if !ok || v.Tomb {
+			if !ok || v.Tomb || k == gone {
 				continue
 			}
 			u := w.ProbeOp(world.Op{K: "update", Key: k, Val: "after-failover", Rev: world.Rev{M: "abs", N: int64(v.Rev)}, Node: 1})
